@@ -55,9 +55,17 @@ ExplainsAfterDroppingOneQual(tree, toks) ==
                           /\ (InTypedef(toks, i) \/ InInstList(toks, i))
                           /\ Explains(tree, DropAt(toks, {i}))
 
+\* classification of a rejected well-formed input (known finding): a two-word basic type is an entry of an
+\* instantiation list; positions of the first words are reported so that the harness can confirm the analysis by
+\* parsing the same file with one-word types in their place
+MultiWordInInstList(toks) ==
+  {i \in 1..(Len(toks) - 1) : toks[i] = "unsigned" /\ toks[i + 1] = "char" /\ InInstList(toks, i)}
+RejectClass(toks) == IF MultiWordInInstList(toks) # {} THEN "MultiWordBasicTypeInInstantiationList" ELSE ""
+
 Clause(ob) ==
   LET toks == ob.toks IN
-  IF ob.op # "" /\ ~Regrouped(ob) THEN "harness-regrouping-wrong"
+  IF ob.op = "rejected" THEN "wellformed-input-rejected/" \o RejectClass(toks)
+  ELSE IF ob.op # "" /\ ~Regrouped(ob) THEN "harness-regrouping-wrong"
   ELSE IF ~Balanced(toks) THEN "accepted-unbalanced-input"
   ELSE IF Explains(ob.tree, toks) THEN ""
   ELSE IF ExplainsAfterDroppingOneQual(ob.tree, toks) THEN "tree-does-not-explain-tokens/one-qualifier-dropped"
